@@ -331,6 +331,13 @@ class BadObserver:
         raise AttributeError(name)
 
 
+class TinyPlugin:
+    """A duck-typed plugin that implements a single hook (every other hook is simply absent)."""
+
+    def on_transition(self, *a, **k):
+        return None
+
+
 OBSERVER_FAULTS = {"on": False}
 
 
@@ -343,6 +350,7 @@ def attach(interp, ctl: Ctl, out_tag=None):
             raise RuntimeError("planned listener fault")
 
         interp.use(BadObserver())
+        interp.use(TinyPlugin())
         interp.subscribe(bad_sub)
         interp.on("*", bad_listener)
     interp.use(Recorder(ctl, out_tag))
